@@ -689,7 +689,12 @@ pub fn run_c16(tier: Tier) -> i32 {
                         }
                         // the age jobs advance this thread's paused clock
                         let now = tokio::time::Instant::now().into_std();
-                        match jobs[i] {
+                        let job_label = format!("{:?}", std::mem::discriminant(&jobs[i]));
+                        let st_ref = &mut st;
+                        let this_job = jobs[i];
+                        let job = async move {
+                        let st = st_ref;
+                        match this_job {
                             Job::Mutate(codec, k) => {
                                 let cc = client_corpus(now);
                                 // valid frames: a request, a cancel, requests with odd bodies / ids
@@ -697,16 +702,32 @@ pub fn run_c16(tier: Tier) -> i32 {
                                 let m = &cc[picks[k]];
                                 let body = encode_body(codec, m);
                                 let frames = vec![(format!("frame#{}", picks[k]), frame(&body))];
-                                mutate_server_frames(&mut st, codec, &frames, all_values || k == 0, pairs);
+                                mutate_server_frames(st, codec, &frames, all_values || k == 0, pairs);
                             }
-                            Job::Boundary(codec, regime) => boundary_server_cases(&mut st, codec, regime),
-                            Job::Client(codec, regime, mutate) => client_cases(&mut st, codec, regime, now, mutate, all_values),
-                            Job::Flood(codec) => crate::c16_hist::flood_cases(&mut st, codec, flood_n),
-                            Job::ClientFlood(codec) => crate::c16_hist::client_flood_cases(&mut st, codec, flood_n),
-                            Job::ServerAge(codec) => crate::c16_hist::server_age_cases(&mut st, codec).await,
-                            Job::Timed(codec) => crate::c16_hist::timed_history_cases(&mut st, codec, if tier == Tier::Thorough { 6 } else { 5 }).await,
-                            Job::ClientAge(codec) => crate::c16_hist::client_age_cases(&mut st, codec).await,
-                            Job::StubVariant => crate::c16_hist::stub_variant_cases(&mut st),
+                            Job::Boundary(codec, regime) => boundary_server_cases(st, codec, regime),
+                            Job::Client(codec, regime, mutate) => client_cases(st, codec, regime, now, mutate, all_values),
+                            Job::Flood(codec) => crate::c16_hist::flood_cases(st, codec, flood_n),
+                            Job::ClientFlood(codec) => crate::c16_hist::client_flood_cases(st, codec, flood_n),
+                            Job::ServerAge(codec) => crate::c16_hist::server_age_cases(st, codec).await,
+                            Job::Timed(codec) => crate::c16_hist::timed_history_cases(st, codec, if tier == Tier::Thorough { 6 } else { 5 }).await,
+                            Job::ClientAge(codec) => crate::c16_hist::client_age_cases(st, codec).await,
+                            Job::StubVariant => crate::c16_hist::stub_variant_cases(st),
+                        }
+                        };
+                        // A panic outside the guarded subject runs: when it comes from tarpc's
+                        // own code (say, its serializer run by the harness in the role of a
+                        // caller or peer) it is a verdict; anywhere else it is the checker's.
+                        if futures::FutureExt::catch_unwind(AssertUnwindSafe(job)).await.is_err() {
+                            let p = take_panic();
+                            // (the checker's own files are reported relative to its crate,
+                            // "src/..."; tarpc, the standard library and the dependencies tarpc
+                            // calls into are reported with absolute paths)
+                            let loc = p.rsplit(" @ ").next().unwrap_or("");
+                            if !loc.starts_with("src/") {
+                                failure(&mut st, format!("C16-panic-in-tarpc/{}", site(&p)), format!("while the harness prepared or fed well-typed values ({job_label}): {p}"));
+                            } else {
+                                panic!("{p}");
+                            }
                         }
                     }
                 }));
